@@ -91,7 +91,7 @@ def monitor(tr):
 
 
 def run(ck):
-    G.run_property(ck, PROFILE, monitor, n_quick=60, n_thorough=600, nops=45, rule=RULE)
+    G.run_property(ck, PROFILE, monitor, n_quick=200, n_thorough=2000, nops=45, rule=RULE)
 
 
 def replay(ck, path):
